@@ -33,6 +33,7 @@ ASSUMPTIONS = [
     "frame alphabet: 0,1,2,3 animals; frames 0,1 are 2/3 the size of frames 2,3 and size matching brings them to the same network input, so eff_scale differs between batch-mates; video_idx 0 for frames 0,2 and 1 for frames 1,3",
     "tiny bottom-up family (32x48 frames, PAF stride 8 -> 4x6x4 PAF grid, edges longer than max_edge_length_ratio x image size so the distance penalty is active): every ordered selection from a 2-frame alphabet as one batch of 7 (quick) / 5..9 (thorough) frames - batches larger than every PAF-grid axis",
     "centroid-gt configuration: top-down with only a centroid model (FindInstancePeaksGroundTruth); the frames carry <= 2 labelled instances (frame 3 shows a third, unlabelled animal: more detected centroids than instance slots)",
+    "train-toggle configuration: top-down networks with a batch-statistic (BatchNorm-like) layer, switched to train mode after a first use of the predictor; the inference layers must put them back into eval mode, otherwise every frame depends on its batch-mates",
     "B = 3 (quick) / 4 (thorough); every selection of B >= 2 frames is additionally run as consecutive batches of size B-1 through the same predictor / inference-model instance (batch-size independence and state carried between batches)",
 ]
 
@@ -221,6 +222,13 @@ def run_batch(cfg, frames, a, sel, batch_size=None):
     """All frames of `sel` go through ONE predictor / inference-model instance, in consecutive batches of
     `batch_size` (default: one batch) - so state kept on the inference layers between batches is exercised too."""
     p = make_predictor(cfg, batch_size or len(sel), a)
+    if cfg.get("train_toggle"):
+        # history: the predictor is used once, then the wrapped networks are switched to train mode (what resuming
+        # training on the shared module does), then it predicts again; the networks carry a batch-statistic layer
+        p.pipeline = FilledReader([frames[1]["item"]])
+        list(p._predict_generator())
+        p.inference_model.centroid_crop.torch_model.train()
+        p.inference_model.instance_peaks.torch_model.train()
     p.pipeline = FilledReader([frames[i]["item"] for i in sel])
     outs = list(p._predict_generator())
     return group(cfg["model"], per_frame(cfg["model"], outs))
@@ -410,6 +418,8 @@ def configs():
                 if model == "single" and mi is not None:
                     continue
                 out.append({"model": model, "refinement": ref, "max_instances": mi})
+    # top-down whose networks contain a batch-statistic layer and are put into train mode between two uses of the predictor
+    out.append({"model": "topdown", "refinement": None, "max_instances": None, "train_toggle": True})
     # top-down with ONLY a centroid model: detected centroids are matched to the frame's own labelled instances
     out.append({"model": "centroid-gt", "refinement": None, "max_instances": None})
     return out
